@@ -322,6 +322,131 @@ var poolOps = []poolOp{
 	}},
 }
 
+// degenerate returns a square matrix that takes the error paths of the
+// factorizations: an exactly singular one (a zero row), one whose norm
+// overflows (the condition estimate is 0 although no pivot is), a nearly
+// singular one, or a matrix with a NaN.
+func (r *opRand) degenerate(n, kind int) *mat.Dense {
+	a := r.wellCond(n)
+	switch kind % 4 {
+	case 0:
+		for j := 0; j < n; j++ {
+			a.Set(n/2, j, 0)
+		}
+	case 1:
+		for i := 0; i < n; i++ {
+			for j := 0; j < n; j++ {
+				v := 1e308
+				if (i+j)%2 == 1 && i >= j {
+					v = -1e308
+				}
+				a.Set(i, j, v)
+			}
+		}
+	case 2:
+		for j := 0; j < n; j++ {
+			a.Set(n-1, j, a.At(0, j)*(1+1e-15))
+		}
+	default:
+		a.Set(0, n-1, math.NaN())
+	}
+	return a
+}
+
+func init() {
+	poolOps = append(poolOps,
+		poolOp{"Dense.Inverse(degenerate input)", func(r *opRand, n int) []float64 {
+			a := r.degenerate(n, n)
+			var inv mat.Dense
+			err := inv.Inverse(a)
+			out := []float64{errf(err)}
+			if err == nil {
+				out = append(out, flat(&inv)...)
+			}
+			return out
+		}},
+		poolOp{"Dense.Solve(degenerate input)", func(r *opRand, n int) []float64 {
+			a, b := r.degenerate(n, n+1), r.dense(n, 2)
+			var x mat.Dense
+			err := x.Solve(a, b)
+			out := []float64{errf(err)}
+			if err == nil {
+				out = append(out, flat(&x)...)
+			}
+			return out
+		}},
+		poolOp{"LU(degenerate input)", func(r *opRand, n int) []float64 {
+			a := r.degenerate(n, n+2)
+			var lu mat.LU
+			lu.Factorize(a)
+			var x mat.Dense
+			err := lu.SolveTo(&x, false, r.dense(n, 1))
+			ld, sign := lu.LogDet()
+			out := []float64{errf(err), lu.Cond(), ld, sign}
+			if err == nil {
+				out = append(out, flat(&x)...)
+			}
+			return out
+		}},
+		poolOp{"Cholesky(not positive definite)", func(r *opRand, n int) []float64 {
+			s := r.spd(n)
+			s.SetSym(n-1, n-1, -1)
+			var c mat.Cholesky
+			ok := c.Factorize(s)
+			out := []float64{b2f(ok)}
+			// a failed factorization must leave the pools usable
+			var c2 mat.Cholesky
+			ok2 := c2.Factorize(r.spd(n))
+			var x mat.Dense
+			err := c2.SolveTo(&x, r.dense(n, 1))
+			return append(append(out, b2f(ok2), errf(err)), flat(&x)...)
+		}},
+		poolOp{"QR/LQ SolveTo(rank deficient)", func(r *opRand, n int) []float64 {
+			a := r.dense(n+2, n)
+			for i := 0; i < n+2; i++ {
+				a.Set(i, n-1, a.At(i, 0))
+			}
+			var qr mat.QR
+			qr.Factorize(a)
+			var x mat.Dense
+			err := qr.SolveTo(&x, false, r.dense(n+2, 1))
+			var lq mat.LQ
+			lq.Factorize(a.T())
+			var y mat.Dense
+			err2 := lq.SolveTo(&y, false, r.dense(n, 1))
+			out := []float64{errf(err), errf(err2), qr.Cond(), lq.Cond()}
+			if err == nil {
+				out = append(out, flat(&x)...)
+			}
+			if err2 == nil {
+				out = append(out, flat(&y)...)
+			}
+			return out
+		}},
+		poolOp{"SVD/Eigen(degenerate input)", func(r *opRand, n int) []float64 {
+			a := r.degenerate(n, n+3)
+			if n%4 == 0 {
+				a = r.degenerate(n, 0)
+			}
+			var svd mat.SVD
+			ok := svd.Factorize(a, mat.SVDThin)
+			out := []float64{b2f(ok)}
+			if ok {
+				out = append(out, svd.Values(nil)...)
+			}
+			var e mat.Eigen
+			ok2 := e.Factorize(a, mat.EigenRight)
+			out = append(out, b2f(ok2))
+			if ok2 {
+				for _, z := range e.Values(nil) {
+					out = append(out, real(z), imag(z))
+				}
+			}
+			return out
+		}},
+	)
+}
+
 type poolStep struct {
 	op   int
 	n    int
@@ -406,6 +531,10 @@ func runPools(t *simrt.Tape, rc *RunCtx) *Violation {
 	}
 	rc.probe("poisoned_workspace_reused", out.Stats.PoolDirtyHit)
 	rc.probe("pool_double_put_observed", out.Stats.PoolDoublePut)
+	rc.oracle("workspace-returned-once")
+	if out.Stats.PoolDoublePut > 0 {
+		return &Violation{prop, "pools/workspace-returned-twice", fmt.Sprintf("a pooled workspace was put back while it was already in the pool (%d time(s)): two later users can be handed the same scratch memory; plans: %v", out.Stats.PoolDoublePut, desc)}
+	}
 	rc.oracle("same-results-as-alone")
 	for c := range plans {
 		for s := range plans[c] {
